@@ -1,7 +1,92 @@
 import CogentModel.Json
-open CogentModel
+import CogentModel.Model.Aln
+open CogentModel CogentModel.IndelMap CogentModel.Aln
 
-def handle (cmd : String) (_j : J) : Except String J :=
-  throw s!"unknown command {cmd}"
+def errStr : Err → String
+  | .valueError => "ValueError"
+  | .indexError => "IndexError"
+  | .notImplemented => "NotImplementedError"
+  | .assertionError => "AssertionError"
+  | .runtimeError => "TypeError"
+
+def intsJ (xs : List Int) : J := J.arr (xs.map J.num)
+
+def rowJ (n : String) (r : Row) : J :=
+  J.obj [("name", J.str n), ("gp", intsJ r.map.gapPos), ("cum", intsJ r.map.cumLens),
+         ("pl", J.num r.map.parentLength), ("data", J.str (String.ofList r.data))]
+
+def alnJ (a : AlnA) : J := J.arr (a.map fun (n, r) => rowJ n r)
+def denseJ (a : AlnD) : J := J.obj (a.map fun (n, s) => (n, J.str (String.ofList s)))
+
+inductive Op where
+  | slice (a b : Option Int) | int (i : Int) | rc | takeSeqs (names : List String) (neg : Bool)
+  | takePositions (cols : List Int) | toRna | toDna | addSelf | addCopy | keep (locs : List (Int × Int))
+  | other
+
+def parseOp (j : J) : Except String Op := do
+  match ← j.toList with
+  | [J.str "slice", a, b] => pure (.slice (← a.toOptInt) (← b.toOptInt))
+  | [J.str "int", i] => pure (.int (← i.toInt))
+  | [J.str "rc"] => pure .rc
+  | [J.str "take_seqs", ns, neg] => pure (.takeSeqs (← ns.toListOf J.toStr) (← neg.toBool))
+  | [J.str "take_positions", cols, J.bool false] => pure (.takePositions (← cols.toListOf J.toInt))
+  | [J.str "to_rna"] => pure .toRna
+  | [J.str "to_dna"] => pure .toDna
+  | [J.str "add", J.str "self"] => pure .addSelf
+  | [J.str "add", J.str "copy"] => pure .addCopy
+  | [J.str "keep", locs] => pure (.keep (← locs.toListOf (J.toPairOf J.toInt J.toInt)))
+  | _ => pure .other
+
+def stepA (dna : Bool) (a : AlnA) : Op → Option (Except Err (AlnA × Bool))
+  | .slice x y => some ((mapRows (fun r => rowSlice r x y) a).map (·, dna))
+  | .int i => some ((mapRows (fun r => rowInt r i) a).map (·, dna))
+  | .rc => some ((mapRows (rowRc dna) a).map (·, dna))
+  | .takeSeqs ns neg => some (.ok (takeSeqs a ns neg, dna))
+  | .takePositions cols => some ((mapRows (fun r => rowTakePositions r cols) a).map (·, dna))
+  | .toRna => some (.ok (a.map fun (n, r) => (n, { r with data := r.data.map toRna }), false))
+  | .toDna => some (.ok (a.map fun (n, r) => (n, { r with data := r.data.map toDna }), true))
+  | .addSelf => some ((mapRows rowAddSame a).map (·, dna))
+  | .addCopy => some (.ok (a.map fun (n, r) => (n, rowAddOther r (rowOfString (gapped r))), dna))
+  | .keep locs => some ((mapRows (fun r => rowKeep r locs) a).map (·, dna))
+  | .other => none
+
+def stepD (dna : Bool) (a : AlnD) : Op → Option (Except Err (AlnD × Bool))
+  | .slice x y => some (.ok (a.map fun (n, s) => (n, PySlice.slice s x y 1), dna))
+  | .int i => some ((mapDense (fun s => denseTake s [i]) a).map (·, dna))
+  | .rc => some (.ok (a.map fun (n, s) => (n, s.reverse.map (comp dna)), dna))
+  | .takeSeqs ns neg => some (.ok (takeSeqs a ns neg, dna))
+  | .takePositions cols => some ((mapDense (fun s => denseTake s cols) a).map (·, dna))
+  | .toRna => some (.ok (a.map fun (n, s) => (n, s.map toRna), false))
+  | .toDna => some (.ok (a.map fun (n, s) => (n, s.map toDna), true))
+  | .addSelf => some (.ok (a.map fun (n, s) => (n, s ++ s), dna))
+  | .addCopy => some (.ok (a.map fun (n, s) => (n, s ++ s), dna))
+  | .keep _ => none
+  | .other => none
+
+def runA (dna : Bool) (a : AlnA) : List Op → List J
+  | [] => []
+  | op :: ops => match stepA dna a op with
+    | none => []
+    | some (.error e) => [J.obj [("err", J.str (errStr e))]]
+    | some (.ok (a', dna')) => alnJ a' :: runA dna' a' ops
+
+def runD (dna : Bool) (a : AlnD) : List Op → List J
+  | [] => []
+  | op :: ops => match stepD dna a op with
+    | none => []
+    | some (.error e) => [J.obj [("err", J.str (errStr e))]]
+    | some (.ok (a', dna')) => denseJ a' :: runD dna' a' ops
+
+def handle (cmd : String) (j : J) : Except String J :=
+  match cmd with
+  | "history" => do
+    let rows ← (← j.get "rows").toListOf (J.toPairOf J.toStr J.toStr)
+    let ops ← (← j.get "ops").toListOf parseOp
+    let dna := (← (← j.get "moltype").toStr) != "rna"
+    let a : AlnA := rows.map fun (n, s) => (n, rowOfString s.toList)
+    let d : AlnD := rows.map fun (n, s) => (n, s.toList)
+    pure (J.obj [("aligned", J.arr (alnJ a :: runA dna a ops)), ("array", J.arr (denseJ d :: runD dna d ops)),
+                 ("gapped", J.obj (a.map fun (n, r) => (n, J.str (String.ofList (gapped r)))))])
+  | _ => throw s!"unknown command {cmd}"
 
 def main : IO Unit := driverLoop handle
